@@ -82,7 +82,8 @@ def attribute(ex, contract, o, default_safety):
     if o.kind == 'safe':
         return set(default_safety)
     if o.kind == 'frame':
-        return set(o.props) | ({'C11'} if 'C11' in cprops else set()) | cprops
+        fp = set(_G['db'].frame_props(contract.pkg)) if (contract is not None and 'db' in _G) else set()
+        return set(o.props) | ({'C11'} if 'C11' in cprops else set()) | cprops | fp
     if o.props:
         return set(o.props)
     if o.kind == 'pre':
@@ -153,7 +154,7 @@ def select_functions(prog, db, prop):
     for (pkg, short), c in db.contracts.items():
         if pkg == 'extern':
             continue
-        if prop not in c.props and prop not in db.safety_props(pkg):
+        if prop not in c.props and prop not in db.safety_props(pkg) and prop not in db.frame_props(pkg):
             continue
         # locate the function
         pk = pkg.rsplit('/', 1)[-1]
